@@ -244,6 +244,12 @@ def manager_frames(ctx, d):
     _body(ctx, d)
 
 
+@CHECK.given("manager_frames_crowded", lambda tier: MG.manager_cases(tier, crowded=True, max_frames=2), quick=50, thorough=2000)
+def manager_frames_crowded(ctx, d):
+    """Side-by-side annotations that differ only by a small translation, at large map coordinates."""
+    _body(ctx, d)
+
+
 # ---- 2D pipeline (detection2d / tracking2d / fp_validation2d; IoU2D pass/fail) --------------------
 
 
